@@ -10,6 +10,11 @@ import (
 
 var debugLog = os.Getenv("VERIF_DEBUG_LOG") != ""
 
+// Progress counts scheduling events of the running simulation (the kernel adds
+// to it). The worker's hang watchdog measures CPU time since the last change:
+// a run that keeps scheduling is slow, not hung (its own step budget ends it).
+var Progress int64
+
 // Class identifies a kind of violation. Shrinking preserves the class; the
 // known-findings file lists classes.
 type Class struct {
